@@ -59,13 +59,15 @@ pub struct Gen {
     queued: Option<Op>,
     /// pending template ops (inside a callback)
     tpl: std::collections::VecDeque<Op>,
+    /// pending flat scenario (top-level and callback ops in order)
+    flat: std::collections::VecDeque<Op>,
 }
 
 const DYADIC: &[(i64, i64)] = &[(0, 1), (1, 64), (1, 16), (1, 8), (1, 4), (3, 8), (1, 2), (5, 8), (3, 4), (7, 8), (1, 1), (3, 2), (2, 1)];
 
 impl Gen {
     pub fn new(seed: u64, prof: Profile) -> Gen {
-        Gen { rng: Rng(seed), prof, emitted: 0, cb_left: 0, cb_kind: None, paced: [false; NARENAS], closing: false, queued: None, tpl: std::collections::VecDeque::new() }
+        Gen { rng: Rng(seed), prof, emitted: 0, cb_left: 0, cb_kind: None, paced: [false; NARENAS], closing: false, queued: None, tpl: std::collections::VecDeque::new(), flat: std::collections::VecDeque::new() }
     }
 
     fn pacing(&mut self) -> PacingSpec {
@@ -368,6 +370,34 @@ impl Gen {
 impl OpSource for Gen {
     fn next(&mut self, v: &View) -> Option<Op> {
         self.emitted += 1;
+        if let Some(op) = self.flat.pop_front() {
+            if matches!(op, Op::End | Op::EndErr | Op::Panic) { self.cb_kind = None; self.tpl.clear(); }
+            return Some(op);
+        }
+        // scenario: a handle that outlives its arena is presented to a fresh arena whose allocator
+        // and slot table look the same (stale / foreign handle must be refused)
+        if v.in_cb.is_none() && self.prof.multi_arena && self.emitted < self.prof.len && self.rng.chance(1, 40) {
+            let free_arena = (1..NARENAS as u8).find(|x| !v.arenas[*x as usize]);
+            let free_h: Vec<u8> = (0..NHANDLES as u8).filter(|h| v.handles[*h as usize].is_none()).collect();
+            if let (Some(b), true) = (free_arena, free_h.len() >= 2) {
+                let (h1, h2) = (free_h[0], free_h[1]);
+                let k = self.rng.pick(&[Kind::Node, Kind::Leaf, Kind::Struct]);
+                let seq = [
+                    Op::Begin(b, CbKind::New), Op::M(MOp::Alloc(0, Kind::Set, 0, 0)), Op::M(MOp::Alloc(1, k, 1, 0)),
+                    Op::M(MOp::Stash(h1, 0, 1)), Op::End,
+                    Op::DropArena(b),
+                    Op::Begin(b, CbKind::New), Op::M(MOp::Alloc(0, Kind::Set, 0, 0)), Op::M(MOp::Alloc(1, k, 1, 0)),
+                    Op::M(MOp::Stash(h2, 0, 1)), Op::M(MOp::Fetch(2, 0, h1)), Op::M(MOp::Fetch(3, 0, h2)), Op::End,
+                    Op::Begin(0, CbKind::Mutate), Op::M(MOp::LoadRoot(0, 0)), Op::M(MOp::Fetch(1, 0, h1)), Op::M(MOp::Fetch(1, 0, h2)), Op::End,
+                    Op::Collect(b, How::FinishCycle, None),
+                    Op::Begin(b, CbKind::Mutate), Op::M(MOp::LoadRoot(0, 0)), Op::M(MOp::Fetch(1, 0, h2)), Op::M(MOp::Fetch(2, 0, h1)), Op::End,
+                    Op::DropH(h1),
+                ];
+                self.paced[b as usize] = false;
+                self.flat.extend(seq.iter().copied());
+                return self.flat.pop_front();
+            }
+        }
         match v.in_cb {
             Some((a, kind, entered)) => {
                 if self.cb_kind.is_none() {
